@@ -96,15 +96,16 @@ Definition loc_eqb (a b : Loc) : bool :=
 (** the u16 fields saturate *)
 Definition sat_loc (l : Loc) : Loc := mkLoc (N.min (line l) U16MAX) (N.min (col l) U16MAX) (byte_pos l) (char_pos l).
 
-(** * The size guard of `lex` (lex.rs:50-88, after the repair e843625)
-    [input.lines()]: pieces between '\n's, one '\r' stripped before a '\n', no final empty
-    piece; the input is rejected when some line index i has i + 1 >= 65535 (FileTooLong) or
-    some line has chars().count() >= 65535 (LineTooLong).  [cur] is the current line, reversed. *)
+(** * The size guard of `lex` (lex.rs:50-88, after e843625 and d674421)
+    [input.split_inclusive('\n')]: pieces ending in '\n' plus a final unterminated non-empty piece;
+    of each piece the '\n' and then one '\r' are stripped (also of the final piece); the input is
+    rejected when some piece index i has i + 1 >= 65535 (FileTooLong) or some stripped piece has
+    chars().count() >= 65535 (LineTooLong).  [cur] is the current piece, reversed. *)
 Definition strip_cr (cur : list chr) : list chr :=
   match cur with c :: r => if is_cr c then r else cur | [] => [] end.
 Fixpoint guard_lines (cs : list chr) (cur : list chr) : list (list chr) :=
   match cs with
-  | [] => match cur with [] => [] | _ => [rev cur] end
+  | [] => match cur with [] => [] | _ => [rev (strip_cr cur)] end
   | c :: r => if is_nl c then rev (strip_cr cur) :: guard_lines r [] else guard_lines r (c :: cur)
   end.
 Definition GUARD_MAX : N := 65534.
@@ -112,6 +113,31 @@ Definition guard_ok (cs : list chr) : bool :=
   let ls := guard_lines cs [] in
   (nlen ls <=? GUARD_MAX) && forallb (fun l => nlen l <=? GUARD_MAX) ls.
 Definition accepted (i : input) : bool := guard_ok (concat i).
+
+(** * The span of the guard's error (FileTooLong / LineTooLong)
+    [pre] = the segments of the text before the offending line (the code re-segments
+    [input[..byte_pos]], lex.rs:68-75), [first] = the first segment of the offending line after
+    stripping its terminator ([] when the line is empty).
+    Current code (d674421, lex.rs:66-82): computed by formulas, not by update_loc. *)
+Definition nonl_noncr (s : segment) : N := nlen (filter (fun c => negb (is_cr c)) s).
+Definition guard_err_span (pre : input) (first : segment) : Loc * Loc :=
+  let st := mkLoc (wrap16 (nlen (filter is_nl (concat pre)) + 1)) 1 (wrap32 (bytes_of pre)) (wrap32 (nlen pre)) in
+  (st, mkLoc (line st) (wrap16 (1 + wrap16 (nonl_noncr first))) (wrap32 (byte_pos st + wrap32 (seg_len first)))
+             (wrap32 (char_pos st + match first with [] => 0 | _ => 1 end))).
+(** Before d674421 (lex.rs:53-83 at e843625): line = the 0-based index [i as u16]; char_pos and
+    byte_pos counted only the characters of the previous lines WITHOUT their terminators
+    ('\n' and a '\r' before it); the end = one char further (col 2, char_pos + 1). *)
+Fixpoint strip_terms (cs : list chr) : list chr :=
+  match cs with
+  | [] => []
+  | c :: r => if is_nl c then strip_terms r
+              else if is_cr c then match r with d :: _ => if is_nl d then strip_terms r else c :: strip_terms r | [] => c :: strip_terms r end
+              else c :: strip_terms r
+  end.
+Definition guard_err_span_pre (pre : input) (first : segment) : Loc * Loc :=
+  let cs := strip_terms (concat pre) in
+  let st := mkLoc (wrap16 (nlen (filter is_nl (concat pre)))) 1 (wrap32 (seg_len cs)) (wrap32 (nlen cs)) in
+  (st, mkLoc (line st) 2 (wrap32 (byte_pos st + match first with c :: _ => chr_len c | [] => 0 end)) (wrap32 (char_pos st + 1))).
 
 (** * The tokeniser as a sequence of actions *)
 Definition span := (Loc * Loc)%type.
@@ -126,7 +152,7 @@ Inductive action :=
 | AEmit (i : nat)               (* self.end(tok, start), start = an earlier value of self.loc *)
 | AErr (i : nat)                (* self.errors.push(self.end_span(start).sp(..)) *)
 | ASplit (i : nat) (frags : list (N * N)) (total : N * N) (rest : bool).
-      (* lex.rs:1433-1477: start = i-th newest loc, frags = (chars, bytes) of every fragment
+      (* THE OLD CODE ONLY (before d7485e2; kept as the `_pre` arithmetic), lex.rs:1433-1477 at 54c7366: start = i-th newest loc, frags = (chars, bytes) of every fragment
          but the last, total = (chars, bytes) of `lowercase`, rest = `!rest.is_empty()` *)
 
 Record lexer := mkLexer {
@@ -202,7 +228,26 @@ Definition step (inp : input) (st : lexer) (a : action) : lexer :=
 Definition run (inp : input) (acts : list action) : lexer := fold_left (step inp) acts lexer0.
 
 Definition is_split (a : action) : bool := match a with ASplit _ _ _ _ => true | _ => false end.
+(** action sequences of the CURRENT code: the arithmetic [ASplit] no longer exists *)
 Definition split_free (acts : list action) : bool := forallb (fun a => negb (is_split a)) acts.
+
+(** The split-identifier path of the current code (lex.rs:1437-1505 after d7485e2).
+    The lexer walks again over the identifier's segments ([self.loc = first_end], [next_char]
+    until [end], [self.loc = end]: ARewind, AConsume.., ARewind) and records every Loc on the way
+    in [bounds] (plus [start] and [first_end]); the end of every split token is LOOKED UP in
+    [bounds] (the split is abandoned when a fragment does not end on a bound or the ends are not
+    ordered).  So every token is a pair of earlier values of [self.loc]: the path is a sequence
+    of primitive actions.  [i] = index of [start], [ends] = indices of the token ends,
+    [c] = index of the current position [end] (it is in [hist]), [rest] = `!rest.is_empty()`.
+    Indices stay valid because ARewind/AEmit do not change [hist]. *)
+Fixpoint split_emits (prev : nat) (ends : list nat) : list action * nat :=
+  match ends with
+  | [] => ([], prev)
+  | j :: r => let (a, last) := split_emits j r in (ARewind j :: AEmit prev :: a, last)
+  end.
+Definition split_actions (i : nat) (ends : list nat) (c : nat) (rest : bool) : list action :=
+  let (a, last) := split_emits i ends in
+  a ++ ARewind c :: (if rest then [AEmit last] else []).
 
 (** * Span merging (parse.rs uses these on token spans) *)
 (** derived Ord for Loc: lexicographic in declaration order line, col, byte_pos, char_pos *)
